@@ -342,7 +342,7 @@ def _run_case(ctx, cls):
     fs = rng.choice([20.0, 50.0, 100.0])
     is_ms = cls.endswith("_MS")
     is_pl = cls.startswith("pLSCF")
-    unc = cls == "SSIcov" and rng.random() < 0.5
+    unc = cls == "SSIcov" and ctx._k % 2 == 0
     hc = _rand_hc(ctx, with_cov=not is_pl)
     if is_ms:
         nset = rng.randint(2, 3)
@@ -404,15 +404,18 @@ def _run_case(ctx, cls):
 
 def oracle(ctx, scale):
     classes = ["SSIdat", "SSIcov", "SSIdat_MS", "SSIcov_MS", "pLSCF", "pLSCF_MS"]
-    n = ctx.n(4, 40) * scale
+    n = ctx.n(10, 60) * scale
     for k in range(n):
         for cls in classes:
             ctx._case = f"{cls}#{k}"
+            ctx._k = k
             try:
                 hc = _run_case(ctx, cls)
             except (np.linalg.LinAlgError, ValueError, IndexError) as e:
                 ctx.skipped += 1
                 ctx.count(f"run_failed_{type(e).__name__}")
+                if len(ctx.notes) < 8:
+                    ctx.notes.append(f"{cls}: run failed: {type(e).__name__}: {str(e)[:120]}")
                 continue
             if k == 0 and cls == "SSIdat":
                 ctx.sample({"class": cls, "hc": hc})
